@@ -1,6 +1,6 @@
 (* Executable model of integer<n, bt>: the integers modulo 2^n in two's complement. *)
 From Coq Require Import ZArith QArith Lia Bool List.
-From UV Require Import Num Ops Verdict.
+From UV Require Import Num Ops Verdict NativeJudge.
 Import ListNotations.
 Local Open Scope Z_scope.
 
@@ -64,8 +64,8 @@ Definition judge_integer (cfg : list Z) (op : Z) (args res : list Z) : verdict :
   (* integer<n> -> native integer of width a (args: width, bits): judged when the value fits *)
   if Z.eqb op OP_to_int then
     (let z := sgn n b in if Z.leb (- 2^(a-1)) z && Z.ltb z (2^(a-1)) then exact [wrap a z] true else mkV true res false) else
-  if Z.eqb op OP_to_f64 then exact [f64_encode (num_of_Q (inject_Z (sgn n a)))] true else
-  if Z.eqb op OP_to_f32 then exact [f32_encode (num_of_Q (inject_Z (sgn n a)))] true else
+  if Z.eqb op OP_to_f64 then judge_to_f64 (num_of_Q (inject_Z (sgn n a))) res else
+  if Z.eqb op OP_to_f32 then judge_to_f32 (num_of_Q (inject_Z (sgn n a))) res else
   (* integer<n> -> integer<m>: cfg = [n; m] *)
   if Z.eqb op OP_conv then exact [i_conv n (nth0 cfg 1) a] true else
   if Z.eqb op OP_to_f64_rt then (if Z.leb n 53 then exact [wrap n a] true else mkV true res false) else
